@@ -77,6 +77,20 @@ def sets_catalog(d):
                 {'k': 'ent', 'e': 0.5}], [0.5, 0.5], 'exp')
     add('expc', [{'k': 'expc', 'i': 0, 'j': 1},
                  {'k': 'box', 'lo': [-1.0, 0.0], 'hi': [1.0, 2.0]}], [0.0, 1.5], 'exp')
+    # scaled atoms:  c*norm(z - ctr) <= c*r  (c < 0:  c*norm(..) >= c*r)  describe the same sets
+    add('ninf*.25', [{'k': 'ninf', 'c': [0.25, -0.25], 'r': 1.0, 'mult': 0.25}], [0.25, -0.25], 'lp')
+    add('ninf*4', [{'k': 'ninf', 'c': [-0.25, 0.25], 'r': 1.25, 'mult': 4.0}], [-0.25, 0.25], 'lp')
+    add('ninf*-2', [{'k': 'ninf', 'c': [0.25, 0.0], 'r': 1.0, 'mult': -2.0}], [0.25, 0.0], 'lp')
+    add('n1*.5', [{'k': 'n1', 'c': [0.25, -0.5], 'r': 1.0, 'mult': 0.5}], [0.25, -0.5], 'lp')
+    add('n1*3', [{'k': 'n1', 'c': [0.0, 0.25], 'r': 1.25, 'mult': 3.0}], [0.0, 0.25], 'lp')
+    add('abs*2', [{'k': 'box', 'lo': [-1.0, -0.25], 'hi': [0.5, 1.25], 'style': 'abs', 'mult': 2.0}], [-0.25, 0.5], 'lp')
+    add('abs*-.5', [{'k': 'box', 'lo': [-0.5, -1.25], 'hi': [1.0, 0.25], 'style': 'abs', 'mult': -0.5}], [0.25, -0.5], 'lp')
+    add('n2*.5', [{'k': 'n2', 'c': [0.0, 0.25], 'r': 1.0, 'mult': 0.5}], [0.0, 0.25], 'soc')
+    add('n2*3', [{'k': 'n2', 'c': [0.25, 0.0], 'r': 1.25, 'style': 'norm2', 'mult': 3.0}], [0.25, 0.0], 'soc')
+    add('sumsqr*2', [{'k': 'n2', 'c': [0.25, 0.0], 'r': 1.0, 'style': 'sumsqr', 'mult': 2.0}], [0.25, 0.0], 'soc')
+    add('quad*.5', [{'k': 'n2', 'c': [0.0, -0.25], 'r': 1.0, 'style': 'quad', 'mult': 0.5}], [0.0, -0.25], 'soc')
+    add('ellip*2', [{'k': 'n2', 'c': [0.25, 0.25], 'r': 1.0, 'M': [[1.0, 0.5], [0.0, 2.0]], 'mult': 2.0}], [0.25, 0.25], 'soc')
+    add('pn3*2', [{'k': 'pn', 'c': [0.0, 0.25], 'r': 1.0, 'p': 3, 'mult': 2.0}], [0.0, 0.25], 'soc')
     # intersections
     add('n2^box', [{'k': 'n2', 'c': [0.0, 0.0], 'r': 1.0}, {'k': 'box', 'lo': [-0.5, -2.0], 'hi': [0.75, 2.0]}], [0.0, 0.0], 'soc')
     add('n2^half', [{'k': 'n2', 'c': [0.0, 0.25], 'r': 1.0}, {'k': 'lin', 'A': [[1.0, 1.0]], 'b': [0.5]}], [0.0, 0.0], 'soc')
@@ -168,7 +182,7 @@ def flip_row(row):
 
 
 def make(d, family, pal, U, att='default', W=None, okind='minmax', mask=None, adapt_style='entry',
-         style='A', orient=0, split=False, obj_first=True, attach='list', solver=None, vec=False, pw=False, pwoff=None):
+         style='A', orient=0, split=False, obj_first=True, attach='list', solver=None, vec=False, pw=False, pwoff=None, late_rvar=False, zsign=None):
     """Assemble one spec.  U / W are set names of sets_catalog(d)."""
     cat = sets_catalog(d)
     t = template(family, d, pal, mask)
@@ -196,6 +210,17 @@ def make(d, family, pal, U, att='default', W=None, okind='minmax', mask=None, ad
     if kind in ('max', 'maxmin'):
         pieces = [neg_piece(pc) for pc in pieces]
     pieces = [dict(pc, style=style) for pc in pieces]
+    if zsign:
+        # mirror the dependence on chosen random components: the worst cases move to the opposite faces of the sets
+        def mirror(pc):
+            out = dict(pc)
+            if 'cz' in pc:
+                out['cz'] = [a * sg for a, sg in zip(pc['cz'], zsign)]
+            if 'Az' in pc:
+                out['Az'] = [[a * sg for a in r] for r, sg in zip(pc['Az'], zsign)]
+            return out
+        rows = [mirror(r) for r in rows]
+        pieces = [mirror(pc) for pc in pieces]
     default = 'U' if kind in ('minmax', 'maxmin') else None
     # attachment of sets to rows
     for i, r in enumerate(rows):
@@ -238,6 +263,11 @@ def make(d, family, pal, U, att='default', W=None, okind='minmax', mask=None, ad
     if pw:
         spec['pw'] = True
         spec['tag'] += '|pw'
+    if zsign:
+        spec['tag'] += '|z%s' % ''.join('+' if sg > 0 else '-' for sg in zsign)
+    if late_rvar and ny:
+        spec['late_rvar'] = True
+        spec['tag'] += '|late_rvar'
     if pwoff:
         spec['pwoff'] = list(pwoff)
         spec['tag'] += '|off:%s.%s' % tuple(pwoff)
@@ -250,6 +280,7 @@ def all_masks(ny, d):
 
 
 STYLES = ['A', 'B', 'C', 'D', 'E', 'F', 'G']
+ATTACH = ['list', 'args', 'mixed', 'lists', 'gen', 'listbare']
 
 
 def gen_specs(tier, seed):
@@ -278,7 +309,14 @@ def _gen_pal(pal, thorough):
                     for solver in _solvers(cat2[U]['cls'], thorough):
                         yield make(2, fam, pal, U, att=att, okind=okind, orient=orient,
                                    style=STYLES[(i + orient) % 7], solver=solver,
-                                   attach='list' if (i + orient) % 2 == 0 else 'args')
+                                   attach=ATTACH[(i + 3 * orient) % len(ATTACH)])
+    # P12: mirrored dependence on the random components (worst cases on the other faces / vertices of every set kind)
+    for i, U in enumerate(names2):
+        for zsign in ([-1.0, -1.0], [1.0, -1.0], [-1.0, 1.0]):
+            for fam in ('S', 'L1'):
+                for att, okind in (('default', 'minmax'), ('forall', 'min')):
+                    yield make(2, fam, pal, U, att=att, okind=okind, zsign=zsign, style=STYLES[i % 7],
+                               attach=ATTACH[i % len(ATTACH)])
     # P2: dependency masks x declaration styles
     for U in ('box', 'n1', 'n2', 'seg', 'tri', 'kl') if not thorough else names2:
         for mask in all_masks(1, 2):
@@ -288,6 +326,18 @@ def _gen_pal(pal, thorough):
         for mask in all_masks(2, 2):
             for ast in ('entry', 'rowwise') if not thorough else ('entry', 'whole', 'rowwise', 'colwise'):
                 yield make(2, 'L2', pal, U, mask=mask, adapt_style=ast, style='B')
+    # P2b: a further random variable declared between adapt() and the first use of the rule (all masks, 2-entry rules)
+    for U in ('box', 'n1', 'ellip'):
+        for mask in all_masks(2, 2):
+            for ast in ('entry', 'rowwise', 'whole', 'colwise'):
+                yield make(2, 'L2', pal, U, mask=mask, adapt_style=ast, style='B', late_rvar=True)
+    # P2c: every way of handing a multi-constraint set to minmax / maxmin / forall
+    for U in ('n1^box', 'n1^ninf', 'seg', 'n2^half', 'budget3'):
+        if U not in cat2:
+            continue
+        for att_kind in ATTACH:
+            for att, okind in (('default', 'minmax'), ('default', 'maxmin'), ('forall', 'min'), ('first_own', 'minmax')):
+                yield make(2, 'L1', pal, U, att=att, W='n1^box' if U != 'n1^box' else 'n1^ninf', okind=okind, attach=att_kind)
     # P3: objective forms
     for U in ('box', 'abs', 'n2', 'kl', 'n1^box') if not thorough else names2:
         for fam in ('S', 'L1', 'L2'):
